@@ -64,11 +64,11 @@ def tryEnd (s : St) : St × Bool :=
 inductive Op
   | take | finish | tryEnd
   | applyPlan (p : Plan)                    -- `state.plan = plan`
-  | verifyBegin                             -- `state.verifyPending = true`
-  | verdict (mismatch : Bool) (c : Nat)     -- verification goroutine's locked region
+  | verifyBegin                             -- `state.beginVerify()`: declines once the end record has gone out
+  | verdict (mismatch : Bool) (c : Nat)     -- verification goroutine's locked region (the goroutine exists only if `beginVerify` accepted)
   deriving DecidableEq, Repr
 
-inductive Out | chunk (i : Nat) | none | fileEnd | nothing
+inductive Out | chunk (i : Nat) | none | fileEnd | nothing | declined
   deriving DecidableEq, Repr
 
 def step (s : St) : Op → St × Out
@@ -76,10 +76,21 @@ def step (s : St) : Op → St × Out
   | .finish => let r := finish s; (r.1, if r.2 then .fileEnd else .nothing)
   | .tryEnd => let r := tryEnd s; (r.1, if r.2 then .fileEnd else .nothing)
   | .applyPlan p => ({ s with plan := some p }, .nothing)
-  | .verifyBegin => ({ s with verifyPending := true }, .nothing)
+  | .verifyBegin => if s.endSent then (s, .declined) else ({ s with verifyPending := true }, .nothing)
   | .verdict m c =>
-    (if m then { s with resendChunk := c, resendPending := true, verifyPending := false }
-     else { s with verifyPending := false }, .nothing)
+    if s.verifyPending then
+      (if m then { s with resendChunk := c, resendPending := true, verifyPending := false }
+       else { s with verifyPending := false }, .nothing)
+    else (s, .declined)
+
+/-- the machine as it was: verification was started whenever a report arrived, also after the end record -/
+def stepOld (s : St) : Op → St × Out
+  | .verifyBegin => ({ s with verifyPending := true }, .nothing)
+  | o => step s o
+
+def runOld (s : St) : List Op → List Out
+  | [] => []
+  | o :: os => (stepOld s o).2 :: runOld (stepOld s o).1 os
 
 def run (s : St) : List Op → List Out
   | [] => []
